@@ -131,7 +131,7 @@ def gen_elem(rng, depth, w, recs, parent, xml, max_depth=4, max_children=3):
         w.add(' ')
         ns, ne = w.add('type')
         w.add(equals(rng))
-        val = rng.choice(['"text/javascript"', "'typescript'", 'javascript', '""', '"module"', 'module', '"application/javascript"', "'application/ld+json'", '"importmap"'])     # (module scripts, JSON blocks: no markup inside either)
+        val = rng.choice(['"text/JavaScript"', "'Module'", '" text/javascript "', '"text/javascript"', "'typescript'", 'javascript', '""', '"module"', 'module', '"application/javascript"', "'application/ld+json'", '"importmap"'])     # (module scripts, JSON blocks: no markup inside either)
         vs, ve = w.add(val)
         attrs = [{'name': 'type', 'ns': ns, 'ne': ne, 'val': val, 'vs': vs, 've': ve,
                   'inner': (vs + 1, ve - 1) if val[0] in '"\'' else (vs, ve)}]
